@@ -22,7 +22,7 @@
     correspondence (results and final cache contents of both containers against the model), not proved.
     Run time is not part of the statement: the fuel bound [2 * mu e] is exponential in the bit widths. *)
 From Coq Require Import List NArith Sorted.
-From Patronus Require Import ExprMeta ExprMetaSpec ExprMetaProofs SimplifyCacheRefs SimplifyCacheRefsProofs SimplifyCacheRefsSim SimplifyCacheRefsTotal.
+From Patronus Require Import ExprMeta ExprMetaSpec ExprMetaProofs SimplifyCacheRefs SimplifyCacheRefsProofs SimplifyCacheRefsSim SimplifyCacheRefsTotal ExprMetaFuel.
 From Patronus Require Import Simplify SimplifyFix SimplifyCache SimplifyCacheProofs SimplifyBuilders
      SimplifyTermMeasure SimplifyTermRules3 SimplifyTerm SimplifyTermNoPanic1 SimplifyTermNoPanic SimplifyCacheComplete.
 Import ListNotations.
@@ -345,3 +345,14 @@ Example C13_example_container_hyps :
 Proof.
   split; split; [exact dense_ops_lawful|exact dense_holds_nothing|exact sparse_ops_lawful|exact sparse_holds_nothing].
 Qed.
+
+(** the fuel of [dense_get_fixed_point] / [sparse_get_fixed_point] (stored slots + 2, what the tie runs) is enough:
+    whenever [get_fixed_point] answers within SOME fuel - i.e. the chain from the key does not run into a cycle of
+    length >= 2, where the Rust loop would not terminate - it gives that answer (pigeonhole over the stored keys) *)
+Theorem C13_get_fixed_point_fuel_suffices :
+  (forall (d : dense (option N)) f key, ExprMeta.get_fixed_point dense_ops f d key <> GfpFuel ->
+      dense_get_fixed_point d key = ExprMeta.get_fixed_point dense_ops f d key) /\
+  (forall (s : sparse (option N)) f key, ExprMeta.get_fixed_point sparse_ops f s key <> GfpFuel ->
+      sparse_get_fixed_point s key = ExprMeta.get_fixed_point sparse_ops f s key).
+Proof. exact get_fixed_point_fuel_suffices. Qed.
+Print Assumptions C13_get_fixed_point_fuel_suffices.
